@@ -1,5 +1,6 @@
 import RexModel.Driver.Basic
 import RexModel.Compiled.Schedule
+import RexModel.Compiled.Ring
 
 open Lean Rex.Driver Rex.Sched
 
@@ -28,12 +29,12 @@ def check : Handler := fun j => do
   pure <| Json.mkObj [("ok", Json.bool (checkSchedule i)), ("failing", Json.arr ((failing i).map Json.str).toArray),
                       ("scheduled", putNat i.sched.length), ("vertices", putNat i.verts.length)]
 
-/-- {"cmd":"sched.replay", ...instance..., "sizes":[per kind], "start": k} → {"ok": bool} -/
+/-- {"cmd":"sched.replay", ...instance..., "sizes":[per kind], "start": k} → {"ok": bool, "consecutive": bool (hypothesis of `replay_read_live`: every kind writes consecutive sequence numbers)} -/
 def replay : Handler := fun j => do
   let i ← parseInst j
   let sizes ← fieldNats j "sizes"
   let start ← fieldNat j "start"
-  pure <| Json.mkObj [("ok", Json.bool (replayOk i sizes start))]
+  pure <| Json.mkObj [("ok", Json.bool (replayOk i sizes start)), ("consecutive", Json.bool (consecOk i sizes.length start))]
 
 def handlers : List (String × Handler) := [("sched.check", check), ("sched.replay", replay)]
 
